@@ -361,7 +361,9 @@ def _ties(*fns):
 
 PROP_TIES = {
     "C01": _ties("Point_ScalarMult", "Point_ScalarBaseMult", "Scalar_signedRadix16", "projLookupTable_FromP3", "affineLookupTable_FromP3", "nafLookupTable5_FromP3",
-                 "projLookupTable_SelectInto", "affineLookupTable_SelectInto") + ["EdVerif.Props.Regen.C01"],
+                 "projLookupTable_SelectInto", "affineLookupTable_SelectInto", "Scalar_nonAdjacentForm", "Point_VarTimeDoubleScalarBaseMult",
+                 "Point_MultiScalarMult", "Point_VarTimeMultiScalarMult", "nafLookupTable8_FromP3", "nafLookupTable5_SelectInto", "nafLookupTable8_SelectInto")
+           + ["EdVerif.Props.Regen.C01", "EdVerif.Props.Regen.C01Loops"],
     "C02": _ties("Point_Add", "Point_Subtract", "Point_Negate", "Point_MultByCofactor", "Point_Set", "NewIdentityPoint", "NewGeneratorPoint") + ["EdVerif.Props.Regen.C02"],
     "C04": _ties("Point_SetBytes", "NewIdentityPoint", "NewGeneratorPoint") + ["EdVerif.Props.Regen.C04"],
     "C05": _ties("Point_Bytes", "Point_bytes", "Point_SetBytes") + ["EdVerif.Props.Regen.C05"],
@@ -370,13 +372,14 @@ PROP_TIES = {
     "C08": _ties("Scalar_Bytes", "Scalar_bytes", "Scalar_SetCanonicalBytes", "Scalar_SetUniformBytes", "Scalar_SetBytesWithClamping", "Scalar_setShortBytes", "isReduced")
            + ["EdVerif.Props.Regen.ScalarSetters"],
     "C09": _ties("field_Element_Invert", "field_Element_Pow22523", "field_Element_Negate", "field_Element_Absolute"),
-    "C10": _ties("field_Element_Equal", "field_Element_Negate", "field_Element_Absolute"),
+    "C10": _ties("field_Element_Equal", "field_Element_Negate", "field_Element_Absolute", "field_Element_Bytes", "field_Element_bytes", "field_Element_IsNegative")
+           + ["EdVerif.Props.Regen.C10"],
     "C11": ["EdVerif.Gen.FormulaTies", "EdVerif.Props.Regen.C11"],          # every function, every aliasing pattern
     "C12": ["EdVerif.Gen.FormulaTies"],                                      # every operation of the API machine
     "C13": _ties("Point_SetExtendedCoordinates", "Point_extendedCoordinates", "isOnCurve") + ["EdVerif.Props.Regen.C13"],
     "C14": _ties("Point_SetBytes", "Point_SetExtendedCoordinates", "Scalar_SetCanonicalBytes", "Scalar_SetUniformBytes", "Scalar_SetBytesWithClamping")
            + ["EdVerif.Props.Regen.SetBytes", "EdVerif.Props.Regen.SetExt", "EdVerif.Props.Regen.ScalarSetters"],
-    "C15": ["EdVerif.Props.Regen.C15"],
+    "C15": ["EdVerif.Props.Regen.C15", "EdVerif.Props.Regen.C01Loops"],   # guards met by the translator; length mismatch panics
     "C16": _ties("field_Element_SqrtRatio") + ["EdVerif.Props.Regen.C16"],
     "C17": _ties("Point_BytesMontgomery", "Point_bytesMontgomery", "Point_ScalarBaseMult", "Scalar_SetBytesWithClamping") + ["EdVerif.Props.C17X", "EdVerif.Props.Regen.C17"],
 }
@@ -412,3 +415,12 @@ FIAT_TIE_NOTE = ("thorough tier: for the 10 fiat scalar kernels and Scalar.Add/S
 for _pid in ("C07", "C08"):
     PROPS[_pid]["modules_thorough"] = ["EdVerif.Ssa.Tie.MainFiat"]
     PROPS[_pid]["trusted_extra"] = list(PROPS[_pid].get("trusted_extra", [])) + [FIAT_TIE_NOTE]
+
+# second tie layer for the point formulas and group operations: SSA semantics = T5 definitions (EdVerif/Ssa/Tie/MainPt, ~4 min after any change
+# of Gen/Ssa.lean on top of Tie.Main): thorough tier
+PT_TIE_NOTE = ("thorough tier: for 19 point-layer functions and 10 aliased variants (projP1xP1 formulas, representation changes, Select/CondNeg, Point.Set/Negate/"
+               "MultByCofactor/Add/Subtract in every aliasing pattern) translator T5 is not trusted either: EdVerif/Ssa/Tie/MainPt proves that executing the regenerated "
+               "SSA in EdVerif/Ssa/Sem.lean on an arbitrary heap leaves in the receiver exactly the T5 definition applied to the operand values")
+for _pid in ("C02", "C11", "C12"):
+    PROPS[_pid]["modules_thorough"] = list(PROPS[_pid].get("modules_thorough", [])) + ["EdVerif.Ssa.Tie.MainPt"]
+    PROPS[_pid]["trusted_extra"] = list(PROPS[_pid].get("trusted_extra", [])) + [PT_TIE_NOTE]
